@@ -472,6 +472,10 @@ def field_edits(orig):
     variant('other-block-flags', lambda b: [x.update(flags=x['flags'] ^ 0x02) for x in b['blocks'] if x['type'] == 193])
     variant('other-block-removed', lambda b: b.update(blocks=[x for x in b['blocks'] if x['type'] != 193]))
     variant('age-block-data', lambda b: [x.update(data=B.enc_age(99)) for x in b['blocks'] if x['type'] == 7])
+    # the same age written in other octets (a longer integer head): the value a parser reads is unchanged, the
+    # block's data is not - covered octets are octets
+    variant('age-block-same-value-longer-head', lambda b: [x.update(data=b'\x1a' + B.dec_age(x['data']).to_bytes(4, 'big')) for x in b['blocks'] if x['type'] == 7])
+    variant('age-block-same-value-eight-octet-head', lambda b: [x.update(data=b'\x1b' + B.dec_age(x['data']).to_bytes(8, 'big')) for x in b['blocks'] if x['type'] == 7])
 
     def swap_numbers(b):
         for x in b['blocks']:
